@@ -32,18 +32,21 @@ RULE = ("case = (format, n_frames, entry point, stride, chunk, skip, atom subset
 WORKERS = {"quick": 8, "thorough": 16}
 BUDGET = {"quick": 90, "thorough": 1500}
 EXHAUSTIVE = {"quick": False, "thorough": True}
-FMTS = ["h5", "xtc", "xtc9", "trr", "dcd", "dcd0", "dcd4", "dcdfix", "trr-double", "trr-vf", "nc", "dtr", "mdcrd", "mdcrd-nobox", "xyz", "xyz-foreign", "xyz.gz", "lammpstrj", "gro", "pdb", "pdb.gz"]
+FMTS = ["h5", "xtc", "xtc9", "trr", "dcd", "dcd0", "dcd4", "dcdfix", "trr-double", "trr-vf", "nc", "dtr", "mdcrd", "mdcrd-nobox", "mdcrd20", "mdcrd-nobox10", "xyz", "xyz-foreign", "xyz.gz", "lammpstrj", "gro", "pdb", "pdb.gz"]
 # dcd0 / dcd4: DCD files as other programs write them (stale header count; CHARMM 4-dimensional), see vlib/gen/files.py
 SUBSETS = {0: None, 1: [0, 2, 3], 2: [1], 3: [0, 1, 2, 3, 4, 5]}
 # ai == 4: a seeded random strictly increasing subset of 4..6 atoms (irregular gaps; readers may special-case regular ones)
 # ai == 5: a regular subset (every other atom) — the class a reader may turn into a slice
 
 
+NA_OF = {"xtc9": 6, "mdcrd20": 20, "mdcrd-nobox10": 10}
+
+
 def subset_for(case):
     ai = case["ai"]
     if ai in SUBSETS:
         return SUBSETS[ai]
-    na = 6 if case["fmt"] == "xtc9" else 12
+    na = NA_OF.get(case["fmt"], 12)
     if ai == 5:
         return list(range(0, na, 2))
     rng = common.rng_for("C02ai", case["fmt"], case["n"], case.get("stride", 0), case.get("chunk", 0), case.get("skip", 0), case.get("frame", 0))
@@ -193,9 +196,11 @@ def _file_for(fmt, n, f0=0):
     key = (fmt, n, f0)
     if key in _CACHE:
         return _CACHE[key]
-    ext = {"xtc9": "xtc", "dcd0": "dcd", "dcd4": "dcd", "dcdfix": "dcd", "trr-double": "trr", "trr-vf": "trr", "mdcrd-nobox": "mdcrd", "xyz-foreign": "xyz"}.get(fmt, fmt)
-    na = 6 if fmt == "xtc9" else 12
-    cell = "ortho" if files.FORMATS[ext]["cell"] and fmt not in ("dcd4", "dcdfix", "mdcrd-nobox") else None
+    ext = {"xtc9": "xtc", "dcd0": "dcd", "dcd4": "dcd", "dcdfix": "dcd", "trr-double": "trr", "trr-vf": "trr", "mdcrd-nobox": "mdcrd", "mdcrd20": "mdcrd", "mdcrd-nobox10": "mdcrd",
+           "xyz-foreign": "xyz"}.get(fmt, fmt)
+    # mdcrd lines hold ten numbers: with 10 / 20 atoms the last coordinate line of every frame is full
+    na = NA_OF.get(fmt, 12)
+    cell = "ortho" if files.FORMATS[ext]["cell"] and fmt not in ("dcd4", "dcdfix", "mdcrd-nobox", "mdcrd-nobox10") else None
     t = files.ident_traj(n, na, cell=cell, f0=f0)
     path = os.path.join(_TMP, f"f_{fmt}_{n}_{f0}.{ext}")
     t.save(path)
